@@ -306,9 +306,9 @@ def setextBar (line : Bytes) : Res (Option UInt8) :=
     let level1 := (rest.takeWhile (· == 61)).length
     let c : UInt8 := if level1 == 0 then 45 else 61
     let level2 := if level1 == 0 then (rest.takeWhile (· == 45)).length else 0
-    if line.length == 0 then .error "index"
-    else
-      let last := line.getD (line.length - 1) 0
+    match line.getLast? with
+    | none => .error "index"                       -- line[end-1] with end = 0
+    | some last =>
       let e := if isSpace last then line.length - trimRightSpaceLength rest else line.length
       if (level1 > 0 && space + level1 == e) || (level2 > 0 && space + level2 == e) then .ok (some c)
       else .ok none
@@ -322,26 +322,36 @@ structure FenceOpen where
   info : Option (Nat × Nat)   -- info segment relative to the line
   deriving DecidableEq, Repr
 
+/-- fcode_block.go:50-59, the `return nil` inside the info-string block: the fence is a backtick fence
+    and the trimmed rest of the line (`rest = line[i:]`) contains a backtick -/
+def fenceInfoBad (c : UInt8) (line : Bytes) (i : Nat) : Bool :=
+  let rest := line.drop i
+  let left := trimLeftSpaceLength rest
+  let right := trimRightSpaceLength rest
+  i + 1 < line.length && left + right < rest.length && c == 96 &&
+    ((rest.drop left).take (rest.length - right - left)).contains 96
+
+/-- fcode_block.go:48-62: the info segment (relative to the line), if any -/
+def fenceInfo (line : Bytes) (i : Nat) : Option (Nat × Nat) :=
+  let rest := line.drop i
+  let left := trimLeftSpaceLength rest
+  let right := trimRightSpaceLength rest
+  if i + 1 < line.length && left + right < rest.length && i + left != line.length - right then
+    some (i + left, line.length - right)
+  else none
+
 /-- fencedCodeBlockParser.Open; `pos` = `pc.BlockOffset()` (≥ 0); `line[pos]` panics beyond the line -/
-def fenceOpen (line : Bytes) (pos : Nat) : Res (Option FenceOpen) := do
-  let c ← byteAt line pos
-  if c != 96 && c != 126 then pure none
-  else
-    let n := ((line.drop pos).takeWhile (· == c)).length
-    let i := pos + n
-    if n < 3 then pure none
-    else if i + 1 < line.length then
-      let rest := line.drop i
-      let left := trimLeftSpaceLength rest
-      let right := trimRightSpaceLength rest
-      if left + right < rest.length then
-        let value := (rest.drop left).take (rest.length - right - left)
-        if c == 96 && value.contains 96 then pure none
-        else if i + left != line.length - right then
-          pure (some { char := c, indent := pos, length := n, info := some (i + left, line.length - right) })
-        else pure (some { char := c, indent := pos, length := n, info := none })
-      else pure (some { char := c, indent := pos, length := n, info := none })
-    else pure (some { char := c, indent := pos, length := n, info := none })
+def fenceOpen (line : Bytes) (pos : Nat) : Res (Option FenceOpen) :=
+  match line[pos]? with
+  | none => .error "index"
+  | some c =>
+    if c != 96 && c != 126 then .ok none
+    else
+      let n := ((line.drop pos).takeWhile (· == c)).length
+      let i := pos + n
+      if n < 3 then .ok none
+      else if fenceInfoBad c line i then .ok none
+      else .ok (some { char := c, indent := pos, length := n, info := fenceInfo line i })
 
 /-- the closing-fence test of fencedCodeBlockParser.Continue (fcode_block.go:73-88): `true` = Close.
     `line[len(line)-1]` panics on an empty line (only reachable with an opening length ≤ 0). -/
